@@ -11,5 +11,10 @@ for P in "$@"; do
   rc=$?
   echo "== $P rc=$rc"
   echo "$out" | grep -E "^violation class|^VIOLATION|^KNOWN|HARNESS|quick:" | cut -c1-300 | head -8
+  # every replay file must reproduce its violation exactly, in a fresh process
+  for r in $(echo "$out" | sed -n 's/^VIOLATION property=[A-Z0-9]* replay=//p' | head -3); do
+    rout=$(cd /verif && VERIF_REPO=$wt timeout 300 ./check $P --replay "$r" 2>&1)
+    if echo "$rout" | grep -q "(identical to recorded run)"; then echo "REPLAY-OK $(basename $r)"; else echo "REPLAY-DIFFERS $(basename $r)"; echo "$rout" | head -3; fi
+  done
 done
 git -C /repo worktree remove --force $wt
